@@ -431,3 +431,35 @@ mutant('C11-nfjc-j0-prefactor', 'C11', 'R11.n', NFJ2, "J0val = 2/np.pi * integra
 mutant('C11-nfjc-kernel-sign', 'C11', 'R11.n', NFJ2, "np.sin(K-X)/(K-X) - np.sin(K+X)/(K+X)", "np.sin(K-X)/(K-X) + np.sin(K+X)/(K+X)")
 mutant('C11-nfjc-multiplicity-divided', 'C11', None, NFJ2, "self.value +=  (self.length - tau) * (omega_t - (sinkk)**(tau))", "self.value +=  (self.length - tau) / (omega_t - (sinkk)**(tau))")
 mutant('C11-nfjc-empty-grid', 'C11', None, NFJ2, "x = np.arange(dx,100,dx)", "x = np.arange(100,dx,dx)")
+
+# ---- round g: optimisation-style changes (memoisation, early returns, dtype-keeping operations) --------------------------
+PRg = 'pyPRISM/core/PRISM.py'
+_LOOP = "        for (i,j),(t1,t2),U in self.sys.potential.iterpairs():"
+_WIRE = "                self.sys.closure[t1,t2].potential = U.calculate(self.sys.domain.r) / self.sys.kT\n            elif"
+mutantN('C16-potential-cache-partial-key', 'C16', 'R16.v', [
+    (PRg, _LOOP, "        evaluated = {}\n" + _LOOP),
+    (PRg, _WIRE, "                key = (type(U),U.sigma)\n                if key not in evaluated:\n"
+                 "                    evaluated[key] = U.calculate(self.sys.domain.r) / self.sys.kT\n"
+                 "                self.sys.closure[t1,t2].potential = evaluated[key]\n            elif")])
+twinN('C16-twin-potential-cache-keyed-by-object', ['C16', 'C10'], [
+    (PRg, _LOOP, "        evaluated = {}\n" + _LOOP),
+    (PRg, _WIRE, "                key = id(U)\n                if key not in evaluated:\n"
+                 "                    evaluated[key] = U.calculate(self.sys.domain.r) / self.sys.kT\n"
+                 "                self.sys.closure[t1,t2].potential = evaluated[key]\n            elif")])
+HSg = 'pyPRISM/potential/HardSphere.py'
+mutant('C10-arithmetic-mask-infinite-core', 'C10', 'R10.i', HSg, 'np.where(r>sigma,0.0,high_value)', 'high_value*(r<=sigma)')
+twin('C10-twin-where-swapped', 'C10', HSg, 'np.where(r>sigma,0.0,high_value)', 'np.where(r<=sigma,high_value,0.0)')
+DOg = 'pyPRISM/core/Domain.py'
+mutant('C08-reciprocal-of-integer-grid', 'C08', 'R08.i', DOg, 'return dst(self.DST_III_coeffs*array,type=3)/self.r',
+       'return dst(self.DST_III_coeffs*array,type=3)*np.reciprocal(self.r)')
+twin('C08-twin-multiply-by-float-inverse', ['C08', 'C07'], DOg, 'return dst(self.DST_III_coeffs*array,type=3)/self.r',
+     'return dst(self.DST_III_coeffs*array,type=3)*(1.0/self.r)')
+mutant('C07-dr-setter-isclose-early-return', 'C07', 'R07.i', DOg,
+       "    def dr(self,value):\n        self._dr = value\n",
+       "    def dr(self,value):\n        if getattr(self,'_dr',None) is not None and np.isclose(value,self._dr):\n            return\n        self._dr = value\n")
+twin('C07-twin-dr-setter-equal-early-return', 'C07', DOg,
+     "    def dr(self,value):\n        self._dr = value\n",
+     "    def dr(self,value):\n        if getattr(self,'_dr',None) is not None and value == self._dr:\n            return\n        self._dr = value\n")
+FFg = 'pyPRISM/omega/FromFile.py'
+mutant('C12-loadtxt-single-precision', 'C12', 'R12.f', FFg, 'np.loadtxt(self.fileName)', 'np.loadtxt(self.fileName,dtype=np.float32)')
+twin('C12-twin-loadtxt-explicit-double', 'C12', FFg, 'np.loadtxt(self.fileName)', 'np.loadtxt(self.fileName,dtype=np.float64)')
